@@ -118,20 +118,24 @@ def finalGuards : Payload → Except Err Payload
     else .ok (.arr xs)
   | p => .ok p
 
-/-- `_parse_payload(value, value_type)`; `tr` = result of the transcoder when a value_type is given -/
+/-- `_parse_payload` up to the final guards: payload objects pass through; a value_type delegates to the
+transcoder (`tr` = its result); otherwise an `int` becomes a DPTBinary and anything else a DPTArray,
+with `TypeError` turned into `ConversionError`. -/
+def parseCore (tr : Option TransRes) : PyVal → Except Err Payload
+  | .arr xs => .ok (.arr xs)
+  | .bin n => .ok (.bin n)
+  | v =>
+    match tr with
+    | some t => transcoded t
+    | none =>
+      match v with
+      | .int n => mkBinary (.int n)
+      | .bool b => mkBinary (.bool b)
+      | v => catchType (mkArray v)
+
+/-- `_parse_payload(value, value_type)` -/
 def parsePayload (tr : Option TransRes) (v : PyVal) : Except Err Payload :=
-  let r : Except Err Payload :=
-    match v with
-    | .arr xs => .ok (.arr xs)
-    | .bin n => .ok (.bin n)
-    | _ =>
-      match tr with
-      | some t => transcoded t
-      | none =>
-        match v with
-        | .int _ | .bool _ => catchType (mkBinary v)
-        | _ => catchType (mkArray v)
-  match r with
+  match parseCore tr v with
   | .ok p => finalGuards p
   | .error e => .error e
 
@@ -139,15 +143,16 @@ def parsePayload (tr : Option TransRes) (v : PyVal) : Except Err Payload :=
 def toBytesBE (len : Nat) (n : Int) : Option (List Item) :=
   if 0 ≤ n ∧ n.toNat < 256 ^ len then some ((Bytes.ofNatBE len n.toNat).map fun b => .int (Int.ofNat b)) else none
 
+/-- the integer whose `to_bytes` is called; `none` = no such method (AttributeError → ConversionError) -/
+def rawArg : PyVal → Option Int
+  | .int n => some n
+  | .bool b => some (if b then 1 else 0)
+  | _ => none
+
 /-- `RemoteValueRaw(payload_length).to_knx(value)` -/
 def rawToKnx (len : Nat) (v : PyVal) : Except Err Payload :=
   if len = 0 then catchTypeIndex (mkBinary v)
-  else
-    let n? : Option Int := match v with
-      | .int n => some n
-      | .bool b => some (if b then 1 else 0)
-      | _ => none                                   -- no `to_bytes`: AttributeError → ConversionError
-    match n? with
+  else match rawArg v with
     | none => .error .conversion
     | some n => match toBytesBE len n with
       | some bs => .ok (.arr bs)
@@ -161,24 +166,26 @@ def roundHalfEven (num : Int) (den : Nat) : Int :=
   else if 2 * rem > den then fl + 1
   else if fl % 2 = 0 then fl else fl + 1
 
-/-- `RemoteValueScaling._calc_to_knx` over exact rationals + the range check; `DPTArray(knx_value)` -/
+/-- the numeric reading of a value in `(value - range_from) / delta * 255`; `none` = TypeError (None, str,
+list …), ValueError (`round(nan)`) or OverflowError (`round(inf)`), all turned into ConversionError -/
+def scalingArg : PyVal → Option (Int × Nat)
+  | .int n => some (n, 1)
+  | .bool b => some (if b then 1 else 0, 1)
+  | .float (.fin num den) => some (num, den)
+  | _ => none
+
+/-- `round((num/den - rf) / delta * 255)` over exact rationals, then the 0..255 check -/
+def scaleQ (rf rt : Int) (num : Int) (den : Nat) : Except Err Payload :=
+  if rt - rf = 0 ∨ den = 0 then .error .conversion           -- ZeroDivisionError → ConversionError
+  else if octet (roundHalfEven ((num - rf * den) * 255 * (if rt - rf < 0 then -1 else 1)) (den * (rt - rf).natAbs))
+  then .ok (.arr [.int (roundHalfEven ((num - rf * den) * 255 * (if rt - rf < 0 then -1 else 1)) (den * (rt - rf).natAbs))])
+  else .error .conversion
+
+/-- `RemoteValueScaling.to_knx` : `_calc_to_knx` + `DPTArray(knx_value)` -/
 def scalingToKnx (rf rt : Int) (v : PyVal) : Except Err Payload :=
-  let delta := rt - rf
-  let q? : Option (Int × Nat) := match v with
-    | .int n => some (n, 1)
-    | .bool b => some (if b then 1 else 0, 1)
-    | .float (.fin num den) => some (num, den)
-    | _ => none                                     -- TypeError / ValueError (nan) / OverflowError (inf) → ConversionError
-  match q? with
+  match scalingArg v with
   | none => .error .conversion
-  | some (num, den) =>
-    if delta = 0 ∨ den = 0 then .error .conversion   -- ZeroDivisionError → ConversionError
-    else
-      -- (num/den - rf) / delta * 255, sign of delta moved into the numerator
-      let n := (num - rf * den) * 255 * (if delta < 0 then -1 else 1)
-      let d := den * delta.natAbs
-      let r := roundHalfEven n d
-      if octet r then .ok (.arr [.int r]) else .error .conversion
+  | some (num, den) => scaleQ rf rt num den
 
 def switchToKnx (invert : Bool) : PyVal → Except Err Payload
   | .bool b => .ok (.bin (if b != invert then 1 else 0))
